@@ -64,6 +64,7 @@ def credit_monitor(world):
                 s = get(ep, sid)
                 if s['role'] is None:
                     s['role'] = 'channel-requester'
+                    s['in_run'] = bool(f.get('follows'))     # the fragments of the request itself are no elements
             elif t == 'PAYLOAD' and (ep, sid) in streams:
                 s = streams[(ep, sid)]
                 cont = s['in_run']
@@ -106,12 +107,19 @@ def gen_case(rng, tier):
                     pol = ('refill', rng.choice([2, 5]), 1) if n0 > 1 else ('refill', 1, 0)
                 return n0, pol
 
-            spec = {'iid': iid, 'side': side, 'model': model, 'start': mixgen.draw_wait(rng), 'req': (12, 0)}
+            spec = {'iid': iid, 'side': side, 'model': model, 'start': mixgen.draw_wait(rng),
+                    'req': rng.choice([(12, 0), (12, 0), (12, 0), (150, 0), (300, 40), (40, 200)])}
             spec['resp'] = {'elems': elems(count), 'terminal': rng.choice(['complete', 'complete', 'flag', 'error']),
                             'pacing': mixgen.draw_pacing(rng), 'source': rng.choice(SOURCES),
                             'handler_delay': mixgen.draw_wait(rng)}
             spec['n0'], spec['policy'] = credit(count)
-            if rng.random() < 0.2:
+            if spec['n0'] < MAXN and rng.random() < 0.3:
+                # credit granted synchronously inside on_subscribe / right behind the request frame
+                if rng.random() < 0.6:
+                    spec['ros'] = rng.choice([1, 2, 5, count + 1])
+                else:
+                    spec['extra_requests'] = [rng.choice([1, 2, 5])] * rng.choice([1, 2])
+            elif rng.random() < 0.2:
                 # the library's own CollectorSubscriber (AwaitableRSocket) as the granting application
                 spec['requester'] = 'collector'
                 spec['n0'] = rng.choice([1, 2, 3, 5, max(1, count), MAXN])
@@ -217,10 +225,22 @@ def run_case(gen, idx, rng, tier):
                                        'trace': [x for x in trace_excerpt(world, 400, iid) if ('(%d' % sid) in x or 'app_request' in x][:50]}})
             # liveness restated: with enough credit every element has been sent by quiescence
             ledger = streams.get((producer_ep, sid))
-            terminated_early = sub.cancelled or any(x == 'on_error' for x in sub.log)
+            # an on_error that no ERROR frame explains is the connection being torn down at the end of the run
+            # under a subscriber that was still waiting - exactly the stall this clause is about
+            error_frame = any(e['kind'] == 'wire' and e['dir'] == 'recv' and e['ep'] == ep and e['f'].get('sid') == sid
+                              and e['f']['type'] == 'ERROR' for e in world.events)
+            terminated_early = sub.cancelled or (error_frame and any(x == 'on_error' for x in sub.log))
             if ledger is not None and not terminated_early and pcfg.get('terminal') != 'error':
                 want = min(len(pcfg['elems']), ledger['credit'])
                 real = sum(1 for x in sub.values if x[0] or x[1])
+                want_app = min(len(pcfg['elems']), sub.granted)
+                if real >= want and real < want_app:
+                    wit.append({'clause': 'granted-credit-never-became-effective',
+                                'detail': {'iid': iid, 'stream': sid, 'granting_endpoint': ep, 'producer': producer_ep,
+                                           'credit_granted_by_application': sub.granted,
+                                           'credit_the_producer_accounted': ledger['credit'],
+                                           'elements_available': len(pcfg['elems']), 'elements_delivered': real,
+                                           'trace': [x for x in trace_excerpt(world, 400, iid)][:60]}})
                 if real < want:
                     wit.append({'clause': 'element-withheld-despite-credit',
                                 'detail': {'iid': iid, 'stream': sid, 'producer': producer_ep, 'source': pcfg.get('source'),
